@@ -133,8 +133,8 @@ Qed.
 Lemma room_eq s s' : atts s' = atts s -> room s' = room s.
 Proof. unfold room. now intros ->. Qed.
 
-Lemma on_not_leader_hint_spec once s t k :
-  match on_not_leader_hint once s t k with
+Lemma on_not_leader_hint_spec lim s t k :
+  match on_not_leader_hint lim s t k with
   | HRetry s' evs => room s' <= room s + n_rearms evs /\ n_attempts evs = 0
   | HDone _ evs => evs = []
   end.
@@ -145,11 +145,11 @@ Proof.
   destruct (length (reps s1) <=? k). { unfold room; atts_norm. rewrite H1. simpl. split; [lia|reflexivity]. }
   destruct (negb (is_reachable (live (rep_at s1 k)))). { rewrite (room_eq _ _ H1). simpl. split; [lia|reflexivity]. }
   match goal with |- context [set_leader k ?x] => set (s2 := x) end.
-  set (w := exhausted (rep_at s1 k) max_replica_attempt && (negb once || negb (nth k (rearmed_v s1) true))) in *.
+  set (w := exhausted (rep_at s1 k) max_replica_attempt && match lim with Some m => nth k (rearmed_v s1) m <? m | None => true end) in *.
   assert (H2 : room s2 <= room s1 + (if w then 1 else 0)).
   { subst s2. unfold room, atts at 1, upd_rep. cbn [reps set_reps].
-    assert (E : reps (if w && once then set_rearmed_v (upd k (fun _ : bool => true) (rearmed_v s1)) s1 else s1) = reps s1)
-      by (destruct (w && once); reflexivity).
+    assert (E : reps (match lim with Some _ => if w then set_rearmed_v (upd k S (rearmed_v s1)) s1 else s1 | None => s1 end) = reps s1)
+      by (destruct lim; [destruct w|]; reflexivity).
     rewrite E. fold (atts s1).
     pose proof (room_upd_rearm k (fun r => set_f_suspect false (set_f_notleader false (if w then set_attempts (max_replica_attempt - 1) r else r)))
                   (fun _ => w) (reps s1)) as L.
@@ -161,8 +161,8 @@ Proof.
     unfold n_rearms, n_attempts; cbn [filter is_rearm is_att length]; split; try lia; reflexivity.
 Qed.
 
-Lemma handle_spec once c s t o i :
-  match handle once c s t o i with
+Lemma handle_spec fixed c s t o i :
+  match handle fixed c s t o i with
   | HRetry s' evs => room s' <= room s + n_rearms evs /\ n_attempts evs = 0
   | HDone _ evs => evs = []
   end.
